@@ -10,6 +10,7 @@ import (
 	"fmt"
 	"math/big"
 	"os"
+	"path/filepath"
 	"sort"
 	"strings"
 
@@ -60,6 +61,27 @@ func (w *world) close() {
 		os.RemoveAll(d)
 	}
 	w.dirs = nil
+}
+
+// walDirOf: a fixed directory of this process for the undo log (kvState.wal) of a restored node. Creating and removing
+// a directory directly under /dev/shm for every restored node costs ~25 ms when many processes of many checks hammer
+// that one directory; these live in a per-process subdirectory and are created once. Only one node per (slot, role)
+// is ever active at a time.
+var walDirs = map[string]string{}
+
+func procDir() string { return filepath.Join("/dev/shm", fmt.Sprintf("C06-w%d", os.Getpid())) }
+
+func walDirOf(slot, role string) (string, error) {
+	k := slot + "-" + role
+	if d, ok := walDirs[k]; ok {
+		return d, nil
+	}
+	d := filepath.Join(procDir(), k)
+	if err := os.MkdirAll(d, 0700); err != nil {
+		return "", err
+	}
+	walDirs[k] = d
+	return d, nil
 }
 
 // trackAll names every address value can reach, so that flat-mode dumps attribute every account.
@@ -213,27 +235,27 @@ func (w *world) snap() *snapshot {
 		store: w.store, reverter: w.reverter, vault: w.vault, issuer: w.issuer}
 }
 
-// restore starts two fresh nodes (node start-up recipe) on copies of the snapshot's databases.
-func (s *snapshot) restore() (*world, error) {
+// restore starts two fresh nodes (node start-up recipe) on copies of the snapshot's databases. slot names the pair of
+// undo-log directories to use ("parent" for a replayed parent state, "cand" for a candidate).
+func (s *snapshot) restore(slot string) (*world, error) {
 	w := &world{trie: s.trie, led: s.led.clone(), nbuild: s.nbuild, store: s.store, reverter: s.reverter, vault: s.vault, issuer: s.issuer}
-	mk := func(t *minichain.Chain, dbs map[string]*kv.CopyDB, wal []byte) (*minichain.Chain, error) {
-		dir, err := minichain.NewWalDir("")
+	mk := func(t *minichain.Chain, dbs map[string]*kv.CopyDB, wal []byte, role string) (*minichain.Chain, error) {
+		dir, err := walDirOf(slot, role)
 		if err != nil {
 			return nil, err
 		}
-		w.dirs = append(w.dirs, dir)
 		if err := minichain.PutWal(dir, wal); err != nil {
 			return nil, err
 		}
 		return t.RestartOnCopies(cloneDBs(dbs), dir)
 	}
-	c, err := mk(s.tmpl.c, s.dbsC, s.walC)
+	c, err := mk(s.tmpl.c, s.dbsC, s.walC, "c")
 	if err != nil {
 		w.close()
 		return nil, fmt.Errorf("restore main: %v", err)
 	}
 	w.c = c
-	r, err := mk(s.tmpl.r, s.dbsR, s.walR)
+	r, err := mk(s.tmpl.r, s.dbsR, s.walR, "r")
 	if err != nil {
 		w.close()
 		return nil, fmt.Errorf("restore replica: %v", err)
